@@ -273,8 +273,8 @@ def elem_menu(b, tier):
          ["load", h0, 1.0 * s, 0.4 * s, "t", "ds", True],
          ["storage", h0, 0.6 * s, 0.2 * s, "wn", "w", True],
          ["storage", h0, -0.5 * s, 0.1 * s, "d", "t", True],
-         ["dcline", far, h1, 0.5 * s, 0., 0., 2. * s, "w"],
-         ["dcline", 0, h0, 0.4 * s, 5., 0.05 * s, 1. * s, "t"],
+         ["dcline", far, h1, 0.5 * s, 0., 0., 2. * s, "t", "w"],        # from / to side with different q limits
+         ["dcline", 0, h0, 0.4 * s, 5., 0.05 * s, 1. * s, "w", "t"],
          ["eg", "wn", "w", True],
          ["eg", "t", "t", "nocol"]]
     if tier == "thorough":
@@ -323,7 +323,9 @@ def gen_cases(tier):
         menu = elem_menu(b, tier)
         for devs in na.subsets(menu, 2, compatible=_compatible):
             elems = [list(d) for d in devs]
-            product(b, elems, vl, bl, ("A", "B"))
+            product(b, elems, [v for v in vl if v != "mixed"], bl, ("A", "B"))
+            # limits on the fused twin bus (recorded finding C16-fused-bus-vlimits): one option combination only
+            product(b, elems, ("mixed",), ("none",), ("A",))
             if tier == "thorough" and b == "R3":
                 # missing / NaN voltage limits (documented defaults) and a single limited branch
                 product(b, elems, ("nan", "none"), ("none", "bind1"), ("A", "B"))
